@@ -1,7 +1,8 @@
 """
 C07 — a Clifford tableau stays valid and tracks the right state under any history.
 
-Correspondence: every operation of the tableau API (clifford.py + transformation.py) is run on the real
+Correspondence: every operation of the tableau API (clifford.py + transformation.py, including the X / Y measurements
+`measure_x`, `measure_y`, `x_measurement_gate` and the wrapper `Stabilizer.apply_x_measurement`) is run on the real
 implementation and on the Lean model (`tab.run` / `tab.tensor`) from the *implementation's* current state; outputs are
 compared exactly (table, phase, iphase, n, outcomes, error class).
 Direct oracle (independent of the model): the tableau stays binary and symplectic, stabilizer i-phases stay 0, and for
@@ -20,7 +21,7 @@ LEVEL = "proof"
 TRUSTED_BASE = [
     "Lean 4.33 kernel",
     "hand-written model GraphiqModel/Model/{Pauli,Tableau}.lean tied to clifford.py/transformation.py/linalg.py by this correspondence run",
-    "tensor-product lifting of the kernel-checked 1-/2-qubit conjugation tables to n qubits (textbook)",
+    "Hilbert-space reading (gates, measurement, and since deep-c07h also insert/remove/partial trace/tensor: Properties/C07.lean sections 6-7) is about Mathlib matrices indexed by bit strings, proved to be Kronecker products; that numpy evaluates np.kron chains as these matrices is compared numerically (dense reference, n<=5), not proved",
     "harness, line protocol, numpy dense reference simulator (n<=5)",
 ]
 ASSUMPTIONS = [
@@ -29,7 +30,9 @@ ASSUMPTIONS = [
 ]
 
 GATES1 = ["h", "s", "sdg", "x", "y", "z"]
-GATES2 = ["cnot", "cz", "swap"]
+GATES2 = ["cnot", "cz", "swap", "cy"]
+# X / Y measurements: op tuple (name, q, determinism, scripted_bit); driver token of the model
+XYMEAS = {"measure_x": "measx", "measure_y": "measy", "x_measurement_gate": "xmeas", "apply_x_measurement": "xmeas"}
 
 
 class Scripted:
@@ -47,10 +50,12 @@ class Scripted:
 def gen_op(rng, n, nmax, malformed=False):
     """-> op tuple"""
     if malformed:
-        k = rng.choice(["h", "cnot", "meas", "insert", "remove", "swap", "resetz"])
+        k = rng.choice(["h", "cnot", "meas", "insert", "remove", "swap", "resetz", "xy"])
         bad = n + rng.randrange(3)
         if k == "h":
             return ("h", bad)
+        if k == "xy":
+            return (rng.choice(sorted(XYMEAS)), bad, rng.choice([0, 1, "p"]), 0)
         if k == "cnot":
             return ("cnot", bad, 0) if rng.random() < 0.5 else ("cnot", 0, bad)
         if k == "meas":
@@ -70,8 +75,10 @@ def gen_op(rng, n, nmax, malformed=False):
         b = rng.randrange(n - 1)
         b = b if b < a else b + 1
         return (rng.choice(GATES2), a, b)
+    if w < 0.61:
+        return ("meas" if rng.random() < 0.85 else "measure_z", rng.randrange(n), rng.choice([0, 1, "p"]), rng.randrange(2))
     if w < 0.68:
-        return ("meas", rng.randrange(n), rng.choice([0, 1, "p"]), rng.randrange(2))
+        return (rng.choice(sorted(XYMEAS)), rng.randrange(n), rng.choice([0, 1, "p"]), rng.randrange(2))
     if w < 0.78:
         return (rng.choice(["resetz", "resetz", "resetx", "resety"]), rng.randrange(n), rng.randrange(2), rng.choice([0, 1, "p"]), rng.randrange(2))
     if w < 0.86 and n < nmax:
@@ -85,13 +92,50 @@ def gen_op(rng, n, nmax, malformed=False):
         if not keep:
             keep = [rng.randrange(n)]
         return ("ptrace", tuple(keep), rng.choice([0, 1, "p"]), tuple(rng.randrange(2) for _ in range(n)))
-    if n + 2 <= nmax:
-        return ("tensor", rng.randrange(1, 3), rng.getrandbits(30))
+    if w < 0.975 and n >= 2:
+        # Stabilizer / MixedStabilizer wrapper: trace OUT the listed qubits (a non-empty proper subset)
+        pos = [q for q in range(n) if rng.random() < 0.35]
+        if not pos:
+            pos = [rng.randrange(n)]
+        if len(pos) == n:
+            pos = pos[:-1]
+        rng.shuffle(pos)
+        return ("trace_out_qubits", tuple(pos), rng.choice([0, 1, "p"]), tuple(rng.randrange(2) for _ in range(n)),
+                rng.choice(["Stabilizer", "MixedStabilizer"]))
+    if n + 1 <= nmax:
+        # tensor([current, f1, ..., fk]) with k = 1..4 further factors of 1-3 qubits each (as many as fit)
+        sizes = []
+        room = nmax - n
+        for _ in range(rng.randrange(1, 5)):
+            if room <= 0:
+                break
+            sz = min(rng.randrange(1, 4), room)
+            sizes.append(sz)
+            room -= sz
+        return ("tensor", tuple(sizes), rng.getrandbits(30))
     return (rng.choice(GATES1), rng.randrange(n))
 
 
 def det_of(d):
     return "probabilistic" if d == "p" else d
+
+
+def tensor_factors(op):
+    """the further factors of a tensor op (sizes op[1], seed op[2]): random reachable tableaux with random sign bits on all rows
+    and random i-phase bits on the destabilizer rows (stabilizer i-phases stay 0)"""
+    import random as _r
+
+    sizes = op[1] if isinstance(op[1], tuple) else (op[1],)
+    out = []
+    for i, sz in enumerate(sizes):
+        r = _r.Random(op[2] * 7 + i)
+        t = tu.random_tableau(r, sz)
+        ip = np.array(t.iphase).astype(int)
+        for k in range(sz):
+            ip[k] = r.randrange(2)
+        t.iphase = ip
+        out.append(t)
+    return out
 
 
 def apply_impl(tab, op, scripted, rng_mod):
@@ -111,10 +155,34 @@ def apply_impl(tab, op, scripted, rng_mod):
         tab = tr.control_z_gate(tab, op[1], op[2])
     elif k == "swap":
         tab = cl.swap_gate(tab, op[1], op[2])
+    elif k == "cy":
+        tab = tr.control_y_gate(tab, op[1], op[2])
+    elif k == "measure_z":
+        # returns only the outcome; the caller's tableau is the post-measurement state
+        scripted.queue = [op[3]]
+        o = cl.measure_z(tab, op[1], det_of(op[2]))
+        outs.append((int(o), None))
     elif k == "meas":
         scripted.queue = [op[3]]
         tab, o, p = cl.z_measurement_gate(tab, op[1], det_of(op[2]))
         outs.append((int(o), int(p) != 0))
+    elif k in ("measure_x", "measure_y"):
+        # return only the outcome; the caller's tableau is the post-measurement state (since the repair D52)
+        scripted.queue = [op[3]]
+        o = {"measure_x": cl.measure_x, "measure_y": cl.measure_y}[k](tab, op[1], det_of(op[2]))
+        outs.append((int(o), None))
+    elif k == "x_measurement_gate":
+        scripted.queue = [op[3]]
+        tab, o, p = cl.x_measurement_gate(tab, op[1], det_of(op[2]))
+        outs.append((int(o), int(p) != 0))
+    elif k == "apply_x_measurement":
+        from graphiq.backends.stabilizer.state import Stabilizer
+
+        scripted.queue = [op[3]]
+        st = Stabilizer(tab)
+        o = st.apply_x_measurement(op[1], det_of(op[2]))
+        tab = st.tableau
+        outs.append((int(o), None))
     elif k in ("resetz", "resetx", "resety"):
         scripted.queue = [op[4]]
         f = {"resetz": cl.reset_z, "resetx": cl.reset_x, "resety": cl.reset_y}[k]
@@ -130,14 +198,37 @@ def apply_impl(tab, op, scripted, rng_mod):
         scripted.queue = list(op[3])
         tab = cl.partial_trace(tab, list(op[1]), None, det_of(op[2]))
     elif k == "tensor":
-        import random as _r
+        others = tensor_factors(op)
+        extra = [o.copy() for o in others]
+        tab = cl.tensor([tab] + others)
+    elif k == "trace_out_qubits":
+        from graphiq.backends.stabilizer.state import MixedStabilizer, Stabilizer
 
-        other = tu.random_tableau(_r.Random(op[2]), op[1])
-        extra = other.copy()
-        tab = cl.tensor([tab, other])
+        scripted.queue = list(op[3])
+        if op[4] == "Stabilizer":
+            st = Stabilizer(tab)
+            st.trace_out_qubits(list(op[1]), det_of(op[2]))
+            tab = st.tableau
+        else:
+            st = MixedStabilizer(tab)
+            st.trace_out_qubits(list(op[1]), det_of(op[2]))
+            tab = st.mixture[0][1]
     else:
         raise ValueError(k)
     return tab, outs, extra
+
+
+def driver_line(before, op, extra=None):
+    """the model command for one op from the implementation's state `before`"""
+    if op[0] == "tensor":
+        others = extra if extra is not None else tensor_factors(op)
+        parts = [tu.tab_args(before, "f0")] + [tu.tab_args(o, f"f{i + 1}") for i, o in enumerate(others)]
+        return f"tab.tensorn k={len(parts)} " + " ".join(parts)
+    if op[0] == "trace_out_qubits":
+        pos = ".".join(map(str, op[1])) if op[1] else "-"
+        os_ = "".join(str(outcome_bit(op[2], b)) for b in op[3])
+        return f"tab.traceout {tu.tab_args(before)} pos={pos} os={os_}"
+    return f"tab.run {tu.tab_args(before)} ops={op_token(op)}"
 
 
 def outcome_bit(det, scripted_bit):
@@ -148,10 +239,17 @@ def op_token(op):
     k = op[0]
     if k in GATES1:
         return f"{k}:{op[1]}"
+    if k == "cy":
+        # control_y_gate = phase_gate; z_gate; cnot_gate; phase_gate (on the target)
+        return f"s:{op[2]},z:{op[2]},cnot:{op[1]}:{op[2]},s:{op[2]}"
+    if k == "measure_z":
+        return f"meas:{op[1]}:{outcome_bit(op[2], op[3])}"
     if k in GATES2:
         return f"{k}:{op[1]}:{op[2]}"
     if k == "meas":
         return f"meas:{op[1]}:{outcome_bit(op[2], op[3])}"
+    if k in XYMEAS:
+        return f"{XYMEAS[k]}:{op[1]}:{outcome_bit(op[2], op[3])}"
     if k in ("resetz", "resetx", "resety"):
         return f"{k}:{op[1]}:{op[2]}:{outcome_bit(op[3], op[4])}"
     if k == "insert":
@@ -226,20 +324,38 @@ def dense_expected(rho, n, op, tab_after_n, observed):
         U = tu.cz_matrix(n, op[1], op[2])
     elif k == "swap":
         U = tu.swap_matrix(n, op[1], op[2])
+    elif k == "cy":
+        U = tu.op_on(n, op[1], np.diag([1, 0])) + tu.op_on(n, op[1], np.diag([0, 1])) @ tu.op_on(n, op[2], tu.Y)
     if U is not None:
         return [tu.conj(U, rho)]
-    if k == "meas":
+    if k in ("meas", "measure_z"):
         q, det, sb = op[1], op[2], op[3]
         o, was_random = observed[0]
         _, p1 = tu.project(rho, n, q, 1)
         is_random = 1e-9 < p1 < 1 - 1e-9
-        if was_random != is_random:
+        if was_random is not None and was_random != is_random:
             return None
         want = (1 if p1 > 0.5 else 0) if not is_random else outcome_bit(det, sb)
         if o != want:
             return None
         r, p = tu.project(rho, n, q, o)
         return [r / p]
+    if k in XYMEAS:
+        # projective measurement of X_q (resp. Y_q): rotate the eigenbasis onto Z (H, resp. H S^dagger), project, rotate back;
+        # outcome o means eigenvalue (-1)^o; a forced outcome is honoured exactly when it has non-zero probability
+        q, det, sb = op[1], op[2], op[3]
+        V = tu.op_on(n, q, tu.H) if k != "measure_y" else tu.op_on(n, q, tu.H) @ tu.op_on(n, q, tu.S.conj().T)
+        rot = tu.conj(V, rho)
+        o, was_random = observed[0]
+        _, p1 = tu.project(rot, n, q, 1)
+        is_random = 1e-9 < p1 < 1 - 1e-9
+        if was_random is not None and was_random != is_random:
+            return None
+        want = (1 if p1 > 0.5 else 0) if not is_random else outcome_bit(det, sb)
+        if o != want:
+            return None
+        r, p = tu.project(rot, n, q, o)
+        return [tu.conj(V.conj().T, r / p)]
     if k in RESETS:
         # reset_z = "measure in Z, then flip the qubit iff the outcome is not the intended state" — exactly: a deterministic
         # inner measurement has its fixed outcome; a random one takes the forced outcome (0/1), resp. the drawn bit ("p":
@@ -266,6 +382,52 @@ def dense_expected(rho, n, op, tab_after_n, observed):
             return [res[outcome_bit(det, sb)]]
         return [r for r in res if r is not None]
     return None  # ptrace / tensor handled separately
+
+
+def dense_measure_and_remove(rho, n, removal, det, script):
+    """sequential measure-and-remove of the qubits in `removal` (highest index first); a scripted bit is consumed only by a
+    random measurement"""
+    nn = n
+    script = list(script)
+    for q in removal:
+        cands = {}
+        for o in (0, 1):
+            r, p = tu.project(rho, nn, q, o)
+            if p > 1e-9:
+                cands[o] = tu.trace_out(r / p, nn, q)
+        if len(cands) == 2:
+            o = det if det != "p" else (script.pop(0) if script else 0)
+            rho = cands[o]
+        else:
+            rho = list(cands.values())[0]
+        nn -= 1
+    return rho
+
+
+def dense_special(before, op, after, extra):
+    """dense oracle for ptrace / trace_out_qubits / tensor; returns None if not applicable (too large), else
+    (ok, key, clause)"""
+    n = before.n_qubits
+    k = op[0]
+    if k == "tensor":
+        rho = tu.dense_rho(before)
+        for f in extra:
+            rho = np.kron(rho, tu.dense_rho(f))
+        ok = rho.shape == tu.dense_rho(after).shape and np.allclose(rho, tu.dense_rho(after), atol=1e-9)
+        return ok, "state:tensor:wrong-state", "tensor product tableau is not the tensor product state"
+    if k == "ptrace":
+        removal = sorted(set(range(n)) - set(op[1]), reverse=True)
+        rho = dense_measure_and_remove(tu.dense_rho(before), n, removal, op[2], op[3])
+        got = tu.dense_rho(after)
+        ok = rho.shape == got.shape and np.allclose(rho, got, atol=1e-9)
+        return ok, "state:ptrace:wrong-state", "partial trace did not leave the state obtained by measuring and discarding the traced qubits"
+    if k == "trace_out_qubits":
+        removal = sorted(set(op[1]) & set(range(n)), reverse=True)
+        rho = dense_measure_and_remove(tu.dense_rho(before), n, removal, op[2], op[3])
+        got = tu.dense_rho(after)
+        ok = rho.shape == got.shape and np.allclose(rho, got, atol=1e-9)
+        return ok, "state:trace_out_qubits:wrong-state", "trace_out_qubits did not leave the reduced (post-measurement) state of the qubits that were NOT listed"
+    return None
 
 
 def check_state(res, tab, where, inp):
@@ -308,15 +470,7 @@ def one_walk(ctx, res, drv, rng, n0, steps, nmax, malformed_rate=0.03, dense_max
                 outs, extra = [], None
             res.evaluations += 1
             res.count("sizes", f"n={n}" if n <= 6 else ("n<=20" if n <= 20 else ("n<=60" if n <= 60 else "n>60")))
-            if op[0] == "tensor":
-                other = extra if extra is not None else None
-                if other is None:
-                    import random as _r
-
-                    other = tu.random_tableau(_r.Random(op[2]), op[1])
-                lines.append(f"tab.tensor {tu.tab_args(before, 'a')} {tu.tab_args(other, 'b')}")
-            else:
-                lines.append(f"tab.run {tu.tab_args(before)} ops={op_token(op)}")
+            lines.append(driver_line(before, op, extra))
             checks.append((before, op, err, tab.copy() if err is None else None, outs, inp, extra))
             if err is not None:
                 res.count("errors", err)
@@ -328,42 +482,22 @@ def one_walk(ctx, res, drv, rng, n0, steps, nmax, malformed_rate=0.03, dense_max
                 tab = tu.random_tableau(rng, max(1, min(n, nmax)))
                 continue
             # dense oracle
-            if n <= dense_max and tab.n_qubits <= dense_max + 1 and op[0] not in ("ptrace", "tensor"):
+            if n <= dense_max and tab.n_qubits <= dense_max + 1 and op[0] not in ("ptrace", "tensor", "trace_out_qubits"):
                 rho = tu.dense_rho(before)
                 exp = dense_expected(rho, n, op, tab.n_qubits, outs)
                 got = tu.dense_rho(tab)
                 if not matches(exp, got):
                     key, clause = wrong_state_key(op, rho, n, got)
                     res.violation(key, clause, input=inp, impl=tu.tab_args(tab), outs=str(outs))
-            elif op[0] == "tensor" and n + op[1] <= dense_max + 1:
-                got = tu.dense_rho(tab)
-                exp = np.kron(tu.dense_rho(before), tu.dense_rho(extra))
-                if not np.allclose(exp, got, atol=1e-9):
-                    res.violation("state:tensor:wrong-state", "tensor product tableau is not the tensor product state", input=inp, impl=tu.tab_args(tab))
-            elif op[0] == "ptrace" and n <= dense_max:
-                # sequential measure-and-remove, highest index first; a scripted bit is consumed only by a random measurement
-                rho = tu.dense_rho(before)
-                nn = n
-                script = list(op[3])
-                for q in sorted(set(range(n)) - set(op[1]), reverse=True):
-                    cands = {}
-                    for o in (0, 1):
-                        r, p = tu.project(rho, nn, q, o)
-                        if p > 1e-9:
-                            cands[o] = tu.trace_out(r / p, nn, q)
-                    if len(cands) == 2:
-                        o = op[2] if op[2] != "p" else (script.pop(0) if script else 0)
-                        rho = cands[o]
-                    else:
-                        rho = list(cands.values())[0]
-                    nn -= 1
-                if not np.allclose(rho, tu.dense_rho(tab), atol=1e-9):
-                    res.violation("state:ptrace:wrong-state", "partial trace did not leave the state obtained by measuring and discarding the traced qubits", input=inp, impl=tu.tab_args(tab))
+            elif op[0] in ("ptrace", "tensor", "trace_out_qubits") and n <= dense_max and tab.n_qubits <= dense_max + 1:
+                r = dense_special(before, op, tab, extra)
+                if r is not None and not r[0]:
+                    res.violation(r[1], r[2], input=inp, impl=tu.tab_args(tab))
         reps = drv.batch(lines)
         for rep, (before, op, err, after, outs, inp, extra) in zip(reps, checks):
             nontriv = bool(np.any(np.asarray(before.phase) != 0)) and op[0] not in ("add",)
             if rep["_status"] == "ok":
-                res.branch(rep.get("br", "tensor").split(","))
+                res.branch(rep.get("br", op[0]).split(","))
             if err is not None:
                 if rep["_status"] != "err" or rep.get("_err") != err:
                     res.exact_break("tab.run:error-class", input=inp, impl=f"err {err}", model=rep["_raw"][:300])
@@ -377,6 +511,10 @@ def one_walk(ctx, res, drv, rng, n0, steps, nmax, malformed_rate=0.03, dense_max
             if same and op[0] == "meas":
                 o, was_random = outs[0]
                 same = rep.get("outs") == f"{o}{'r' if was_random else 'd'}"
+            if same and (op[0] in XYMEAS or op[0] == "measure_z"):
+                o, was_random = outs[0]
+                mo = rep.get("outs", "")
+                same = mo[:1] == str(o) and (was_random is None or mo[1:] == ("r" if was_random else "d"))
             if not same:
                 # relation R: same n, valid, same signed stabilizer group
                 r_ok = int(rep["n"]) == after.n_qubits and tu.canon_from_reply(rep) == tu.stab_canon(after)
@@ -434,7 +572,14 @@ def exhaustive_two_qubit(ctx, res, drv):
                 ops.append(("resetz", q, it, d, 0))
         ops.append(("resetx", q, 1, 0, 0))
         ops.append(("resety", q, 0, 1, 0))
+        for d in (0, 1):
+            for k in sorted(XYMEAS) + ["measure_z"]:
+                ops.append((k, q, d, 0))
     ops += [("insert", 0), ("insert", 1), ("insert", 2), ("add",)]
+    for q in (0, 1):
+        for d in (0, 1):
+            for w in ("Stabilizer", "MixedStabilizer"):
+                ops.append(("trace_out_qubits", (q,), d, (0, 0), w))
     scripted = Scripted()
     for t0 in tabs:
         lines, checks = [], []
@@ -449,13 +594,18 @@ def exhaustive_two_qubit(ctx, res, drv):
             res.evaluations += 1
             if not check_state(res, after, op[0], inp):
                 continue
-            rho = tu.dense_rho(before)
-            exp = dense_expected(rho, 2, op, after.n_qubits, outs)
-            got = tu.dense_rho(after)
-            if not matches(exp, got):
-                key, clause = wrong_state_key(op, rho, 2, got)
-                res.violation(key, clause, input=inp, impl=tu.tab_args(after), outs=str(outs))
-            lines.append(f"tab.run {tu.tab_args(before)} ops={op_token(op)}")
+            if op[0] == "trace_out_qubits":
+                r = dense_special(before, op, after, None)
+                if not r[0]:
+                    res.violation(r[1], r[2], input=inp, impl=tu.tab_args(after))
+            else:
+                rho = tu.dense_rho(before)
+                exp = dense_expected(rho, 2, op, after.n_qubits, outs)
+                got = tu.dense_rho(after)
+                if not matches(exp, got):
+                    key, clause = wrong_state_key(op, rho, 2, got)
+                    res.violation(key, clause, input=inp, impl=tu.tab_args(after), outs=str(outs))
+            lines.append(driver_line(before, op))
             checks.append((op, after, inp))
         reps = drv.batch(lines)
         for rep, (op, after, inp) in zip(reps, checks):
@@ -527,19 +677,25 @@ def replay(ctx, data):
     except Exception as e:  # noqa: BLE001
         print("implementation raises", type(e).__name__, e)
         return False
+    if op[0] == "tensor" and _ is None:
+        _ = tensor_factors(op)
     if not check_state(res, after, op[0], inp):
         return False
-    if n <= 5:
-        exp = dense_expected(tu.dense_rho(before), n, op, after.n_qubits, outs)
-        got = tu.dense_rho(after)
-        if not matches(exp, got):
-            print("dense oracle:", wrong_state_key(op, tu.dense_rho(before), n, got)[0], "op", op, "state", inp["state"], "->", tu.tab_args(after))
-            return False
-    if op[0] == "tensor":
-        return True if n <= 5 else None
+    if n <= 5 and after.n_qubits <= 6:
+        if op[0] in ("ptrace", "tensor", "trace_out_qubits"):
+            r = dense_special(before, op, after, _)
+            if r is not None and not r[0]:
+                print("dense oracle:", r[1], "op", op, "state", inp["state"], "->", tu.tab_args(after))
+                return False
+        else:
+            exp = dense_expected(tu.dense_rho(before), n, op, after.n_qubits, outs)
+            got = tu.dense_rho(after)
+            if not matches(exp, got):
+                print("dense oracle:", wrong_state_key(op, tu.dense_rho(before), n, got)[0], "op", op, "state", inp["state"], "->", tu.tab_args(after))
+                return False
     # any n: the signed stabilizer group must be the one of the verified model (Properties/C07: history_tracks_state)
     drv = Driver()
-    rep = drv.batch([f"tab.run {tu.tab_args(before)} ops={op_token(op)}"])[0]
+    rep = drv.batch([driver_line(before, op, _)])[0]
     drv.close()
     if rep["_status"] != "ok" or int(rep["n"]) != after.n_qubits or tu.canon_from_reply(rep) != tu.stab_canon(after):
         print("differs from the verified model: op", op, "state", inp["state"], "-> impl", tu.tab_args(after), "model", rep["_raw"][:600])
